@@ -661,6 +661,22 @@ package query
 //@   loop 1 modifies nothing
 //@   modifies nothing
 
+// Add keeps the pool well-formed (the list and the map stay in step: what Exists, Len and Range see is what was added) and
+// appends the value as the last element; Len is the number of values added (ALTER TABLE DROP reports it).
+//@ func (*UintPool).Add
+//@   property C03 C05
+//@   safety
+//@   requires poolWf(c)
+//@   ensures [value-appended] len(c.values) == old(len(c.values)) + 1 && c.values[old(len(c.values))] == val && forall(q, 0, old(len(c.values)), c.values[q] == old(c.values[q]))
+//@   ensures [map-and-list-stay-in-step] has(c.m, val) && forallv(v, uint, v != val ==> (has(c.m, v) <==> old(has(c.m, v))))
+//@   modifies c.m[*], c.values, c.values[*], fresh
+//@ func (*UintPool).Len
+//@   property C05
+//@   safety
+//@   requires c != nil
+//@   ensures [number-of-values-added] result == len(c.values)
+//@   modifies nothing
+
 // one row of the merged join result: column i of the output is input column fieldIndices[i], except that a NULL
 // join column takes the value of its counterpart from the other table (alternatives maps column index to column index)
 //@ func joinViews$2
@@ -825,6 +841,58 @@ package query
 //@   ensures [innermost-declaration-serves-the-fetch] forall(k, 0, len(rs.Blocks), curDeclared(rs.Blocks[k].Cursors, name.Literal) && forall(q, 0, k, !curDeclared(rs.Blocks[q].Cursors, name.Literal)) ==>
 //@       cursorServedBy == rs.Blocks[k].Cursors)
 //@   ensures [undeclared-is-error] forall(q, 0, len(rs.Blocks), !curDeclared(rs.Blocks[q].Cursors, name.Literal)) ==> result1 != nil && result0 == nil && cursorServedBy == old(cursorServedBy)
+//@   loop 1 invariant 0 <= $i && $i <= len(rs.Blocks) && cursorServedBy == old(cursorServedBy) && forall(q, 0, $i, !curDeclared(rs.Blocks[q].Cursors, name.Literal))
+//@   modifies *
+//@   modifies cursorServedBy
+
+// the other cursor statements resolve the name the same way: the innermost block that declares it serves OPEN, CLOSE and
+// DISPOSE, whatever it answers (a closed cursor, a pseudo cursor of a user-defined aggregate, an already open one): an
+// outer cursor of the same name is never reached
+//@ func (CursorMap).Dispose
+//@   trusted assumed ghost model of the sync.Map behind a block's cursors
+//@   ensures !curDeclared(m, name.Literal) ==> result == errUndeclaredCursor && cursorServedBy == old(cursorServedBy)
+//@   ensures curDeclared(m, name.Literal) ==> (result == nil || result == errPseudoCursor) && cursorServedBy == m
+//@   modifies cursorServedBy
+//@   modifies * except F:query.ReferenceScope. E:query.BlockScope#
+//@ func (CursorMap).Open
+//@   trusted assumed ghost model of the sync.Map behind a block's cursors; Cursor.Open itself is verified (C16)
+//@   ensures !curDeclared(m, name.Literal) ==> result == errUndeclaredCursor && cursorServedBy == old(cursorServedBy)
+//@   ensures curDeclared(m, name.Literal) ==> result != errUndeclaredCursor && cursorServedBy == m
+//@   modifies cursorServedBy
+//@   modifies * except F:query.ReferenceScope. E:query.BlockScope#
+//@ func (CursorMap).Close
+//@   trusted assumed ghost model of the sync.Map behind a block's cursors; Cursor.Close itself is verified (C16)
+//@   ensures !curDeclared(m, name.Literal) ==> result == errUndeclaredCursor && cursorServedBy == old(cursorServedBy)
+//@   ensures curDeclared(m, name.Literal) ==> result != errUndeclaredCursor && cursorServedBy == m
+//@   modifies cursorServedBy
+//@   modifies * except F:query.ReferenceScope. E:query.BlockScope#
+//@ func (*ReferenceScope).DisposeCursor
+//@   property C15 C16
+//@   safety
+//@   requires rs != nil
+//@   ensures [innermost-declaration-serves-the-dispose] forall(k, 0, len(rs.Blocks), curDeclared(rs.Blocks[k].Cursors, name.Literal) && forall(q, 0, k, !curDeclared(rs.Blocks[q].Cursors, name.Literal)) ==>
+//@       cursorServedBy == rs.Blocks[k].Cursors)
+//@   ensures [undeclared-is-error] forall(q, 0, len(rs.Blocks), !curDeclared(rs.Blocks[q].Cursors, name.Literal)) ==> result != nil && cursorServedBy == old(cursorServedBy)
+//@   loop 1 invariant 0 <= $i && $i <= len(rs.Blocks) && cursorServedBy == old(cursorServedBy) && forall(q, 0, $i, !curDeclared(rs.Blocks[q].Cursors, name.Literal))
+//@   modifies *
+//@   modifies cursorServedBy
+//@ func (*ReferenceScope).OpenCursor
+//@   property C15 C16
+//@   safety
+//@   requires rs != nil
+//@   ensures [innermost-declaration-serves-the-open] forall(k, 0, len(rs.Blocks), curDeclared(rs.Blocks[k].Cursors, name.Literal) && forall(q, 0, k, !curDeclared(rs.Blocks[q].Cursors, name.Literal)) ==>
+//@       cursorServedBy == rs.Blocks[k].Cursors)
+//@   ensures [undeclared-is-error] forall(q, 0, len(rs.Blocks), !curDeclared(rs.Blocks[q].Cursors, name.Literal)) ==> result != nil && cursorServedBy == old(cursorServedBy)
+//@   loop 1 invariant 0 <= $i && $i <= len(rs.Blocks) && cursorServedBy == old(cursorServedBy) && forall(q, 0, $i, !curDeclared(rs.Blocks[q].Cursors, name.Literal))
+//@   modifies *
+//@   modifies cursorServedBy
+//@ func (*ReferenceScope).CloseCursor
+//@   property C15 C16
+//@   safety
+//@   requires rs != nil
+//@   ensures [innermost-declaration-serves-the-close] forall(k, 0, len(rs.Blocks), curDeclared(rs.Blocks[k].Cursors, name.Literal) && forall(q, 0, k, !curDeclared(rs.Blocks[q].Cursors, name.Literal)) ==>
+//@       cursorServedBy == rs.Blocks[k].Cursors)
+//@   ensures [undeclared-is-error] forall(q, 0, len(rs.Blocks), !curDeclared(rs.Blocks[q].Cursors, name.Literal)) ==> result != nil && cursorServedBy == old(cursorServedBy)
 //@   loop 1 invariant 0 <= $i && $i <= len(rs.Blocks) && cursorServedBy == old(cursorServedBy) && forall(q, 0, $i, !curDeclared(rs.Blocks[q].Cursors, name.Literal))
 //@   modifies *
 //@   modifies cursorServedBy
@@ -1744,6 +1812,13 @@ package query
 //@   assert after call (*query.UncommittedViews).SetForUpdatedView#2: [update-marks-only-tables-with-updated-rows] e@5 == nil && 0 < cnts@1[i@1]
 //@   assert after call (*query.UncommittedViews).SetForUpdatedView#3: [replace-marks-the-table-only-when-rows-were-affected] e@6 == nil && 0 < cnt@2
 //@   assert after call (*query.UncommittedViews).SetForUpdatedView#4: [delete-marks-only-tables-with-deleted-rows] e@7 == nil && 0 < cnts@2[i@2]
+//@   modifies *
+// C20: CREATE TABLE IF NOT EXISTS on an existing file only looks at the table (a plain read: no update lock, no reload
+// of a copy the transaction already read)
+//@ func (*Processor).ExecuteStatement$1
+//@   property C20
+//@   abstract *
+//@   assert before call query.LoadViewFromTableIdentifier#1: [existence-check-of-create-table-if-not-exists-only-reads] !arg3 && !arg4
 //@   modifies *
 //@ func (*Processor).execute!loop
 //@   property C15
